@@ -14,7 +14,7 @@
    evaluates to -1 (never a hash value, never equal to a decoded member). *)
 From Coq Require Import ZArith List String Bool Arith Uint63.
 From GSP Require Import Base.Prelude Base.Decode SMT.Model Verify.Status Verify.Issuer
-  Verify.BJJ Verify.SMTProof Verify.Top78.
+  Verify.BJJ Verify.SMTProof Verify.Top78 Verify.Hex78.
 Import ListNotations.
 Open Scope list_scope.
 Open Scope Z_scope.
@@ -23,10 +23,6 @@ Definition zl := z_of_limbs.
 Definition zi (i : int) : Z := Uint63.to_Z i.
 
 (* ---------------- raw (limb-encoded) forms ---------------- *)
-Inductive rhex := XN | XB | XV (l : limbs).
-Definition hexf_of (x : rhex) : hexf :=
-  match x with XN => HNil | XB => HBad | XV l => HVal (zl l) end.
-
 Definition mkcl (a b c d e f g h : limbs) : claim :=
   mkclaim (zl a) (zl b) (zl c) (zl d) (zl e) (zl f) (zl g) (zl h).
 Definition mkrp_ (ex : bool) (sibs : list limbs) (aux : option (option limbs * option limbs)) : rproof :=
@@ -35,9 +31,12 @@ Definition mkrp_ (ex : bool) (sibs : list limbs) (aux : option (option limbs * o
         | None => None
         | Some (k, v) => Some (option_map zl k, option_map zl v)
         end).
-Definition mkst_ (v c r o : rhex) : istate := mkistate (hexf_of v) (hexf_of c) (hexf_of r) (hexf_of o).
-Definition mkans_ (s c r o : rhex) (p : rproof) : answer :=
-  mkans (mkts (hexf_of s) (hexf_of c) (hexf_of r) (hexf_of o)) p.
+(* the hash-valued members arrive as the strings that stand in the proof / in the status
+   answer; their decoding (NewHashFromHex) is part of the model: Verify/Hex78.v *)
+Definition mkst_ (v c r o : option string) : istate :=
+  mkistate (hexf_of_str v) (hexf_of_str c) (hexf_of_str r) (hexf_of_str o).
+Definition mkans_ (s c r o : option string) (p : rproof) : answer :=
+  mkans (mkts (hexf_of_str s) (hexf_of_str c) (hexf_of_str r) (hexf_of_str o)) p.
 
 (* issuerData.credentialStatus after JSON decoding *)
 Inductive rstatus :=
